@@ -49,6 +49,12 @@ def gen_cases(ctx):
         c["episodes"] = rng.choice([1, 1, 2, 3])
         c["observers"] = rng.random() < 0.25   # every built-in observer + residual updater attached
         yield c
+    for i, name in enumerate(["ft06", "la01"] if ctx.tier == "quick" else ["ft06", "la01", "la02", "orb01", "abz5"]):
+        if i % ctx.nshards == ctx.shard:
+            yield {"kind": "benchmark_reload", "name": name, "seed": rng.randrange(2**31),
+                   "instance": {"cls": "benchmark"},
+                   "filter": {"names": [rng.choice(gen.FILTER_NAMES)], "form": "function"},
+                   "policy": "random_ready"}
     for i in range(ctx.scale(150, 24000)):
         inst = gen.gen_instance(rng, rng.choice(gen.POSITIVE_CLASSES), max_jobs=3,
                                 max_machines=3, max_ops=rng.randint(5, 7 if ctx.tier == "quick" else 8))
@@ -57,11 +63,11 @@ def gen_cases(ctx):
                "seed": rng.randrange(2**31), "limit": 300}
 
 
-def one_history(ctx, case, explicit=None):
+def one_history(ctx, case, explicit=None, instance=None):
     from job_shop_lib.dispatching import Dispatcher
 
     rng = random.Random(case["seed"])
-    run = Run(case["instance"], case.get("filter"))
+    run = Run(case["instance"], case.get("filter"), instance=instance)
     twin = None
     if run.filter_names is not None:
         twin = Dispatcher(run.instance)  # unfiltered twin
@@ -159,6 +165,23 @@ def one_history(ctx, case, explicit=None):
 
 
 def run_case(ctx, case):
+    if case["kind"] == "benchmark_reload":
+        # a recorded benchmark instance is loaded, a variant is made of that copy by editing it in
+        # place (zero durations) and used; a later load must again be the recorded instance
+        from job_shop_lib.benchmarking import load_benchmark_instance
+        from ._dispatch_workload import inst_from_library
+        first = load_benchmark_instance(case["name"])
+        recorded = inst_from_library(first)
+        for job in first.jobs:
+            job[0].duration = 0
+        again = load_benchmark_instance(case["name"])
+        c = dict(case)
+        c["instance"] = recorded
+        c["kind"] = "history"
+        one_history(ctx, c, instance=again)
+        ctx.count("benchmark_reloads")
+        ctx.note_case(case, True, fingerprint="reload:" + case["name"])
+        return
     if case["kind"] == "history":
         run, adv = one_history(ctx, case)
         fp = hash((gen.fingerprint(case["instance"]), str(case.get("filter")), tuple(run.r.history)))
